@@ -492,14 +492,18 @@ def uniform_sample(node, params_row, n, rng, max_rounds=200):
     # a box for rejection: evaluate the conservative box on a grid of partner values
     if node["k"] == "prod" and (free_vars(node["a"]) & {v for v, _ in space(node["b"])}):
         bb, _ = box(node["b"], one)
-        # scan partner coordinates (1-D partners only) for the first factor's box
-        (vb, db), = space(node["b"])
-        ts = np.linspace(bb[0, 0], bb[0, 1], 65)
-        Q = {v: np.repeat(val, len(ts), axis=0) for v, val in one.items()}
-        Q[vb] = ts[:, None]
+        # scan the partner coordinates (one or more 1-D partner variables) for the first factor's box
+        spb = space(node["b"])
+        assert all(db == 1 for _, db in spb)
+        g = 65 if len(spb) == 1 else (33 if len(spb) == 2 else 9)
+        axes = [np.linspace(bb[0, 2 * i], bb[0, 2 * i + 1], g) for i in range(len(spb))]
+        mesh = np.meshgrid(*axes, indexing="ij")
+        Q = {v: np.repeat(val, mesh[0].size, axis=0) for v, val in one.items()}
+        for (vb, _), m in zip(spb, mesh):
+            Q[vb] = m.reshape(-1, 1)
         ba, _ = box(node["a"], Q)
-        lo = list(ba[:, 0::2].min(0)) + [bb[0, 0]]
-        hi = list(ba[:, 1::2].max(0)) + [bb[0, 1]]
+        lo = list(ba[:, 0::2].min(0)) + [bb[0, 2 * i] for i in range(len(spb))]
+        hi = list(ba[:, 1::2].max(0)) + [bb[0, 2 * i + 1] for i in range(len(spb))]
     else:
         b, _ = box(node, one)
         lo, hi = list(b[0, 0::2]), list(b[0, 1::2])
